@@ -31,8 +31,22 @@ class Worker:
             stderr=subprocess.DEVNULL, env=env, cwd=root, text=True, bufsize=1,
         )
 
-    def call(self, req, timeout=None):
-        """-> reply dict, or {"crash": description} when the child died or hung on this request."""
+    def call(self, req, timeout=None, idempotent=True):
+        """-> reply dict, or {"crash": description} when the child died or hung on this request.
+        A time-out alone is never a verdict: the request is re-run in a fresh child with a doubled limit, twice;
+        only three time-outs in a row are reported (as a hang)."""
+        t = timeout or self.timeout
+        rep = self._call_once(req, t)
+        attempts = 1
+        while idempotent and rep.get("crash") == "timeout" and attempts < 3:
+            t *= 2
+            attempts += 1
+            rep = self._call_once(req, t)
+        if rep.get("crash") == "timeout":
+            rep["crash"] = f"timeout ({attempts} attempts, last limit {t:.0f}s)"
+        return rep
+
+    def _call_once(self, req, timeout):
         if self.proc is None or self.proc.poll() is not None:
             self.start()
         try:
@@ -40,7 +54,7 @@ class Worker:
             self.proc.stdin.flush()
         except (BrokenPipeError, OSError):
             return self._dead("broken pipe on send")
-        t = timeout or self.timeout
+        t = timeout
         r, _, _ = select.select([self.proc.stdout], [], [], t)
         if not r:
             self.proc.kill()
